@@ -96,7 +96,7 @@ package tq
 //@   assumed
 //@   props C02
 //@   modifies fresh
-//@   ensures result1 == nil ==> result0 != nil && result0.Header != nil
+//@   ensures result1 == nil ==> result0 != nil && result0.Header != nil && isfresh(result0) && isfresh(result0.Header)
 //@ func (*basicDownloadAdapter).makeRequest
 //@   assumed
 //@   props C02
